@@ -293,6 +293,8 @@ def _json_default(o):
 
 
 def write_evidence(prop: str, tier: str, seed: int, coverage: dict, wall_s: float, violations: int, assumptions, level="exploration"):
+    if os.environ.get("VERIF_NO_EVIDENCE") == "1":  # self-tests must not overwrite the evidence of a real check run
+        return None
     d = os.path.join(VERIF, "evidence")
     os.makedirs(d, exist_ok=True)
     ev = {
